@@ -51,7 +51,13 @@ def _attempt(inp: Dict[str, Any]) -> Dict[str, Any]:
         produced = {"Etot": np.asarray(r["Etot"]).tolist()}
         return {"raised": None, "produced": produced}
     except BaseException as e:  # noqa
-        return {"raised": type(e).__name__, "msg": str(e)[:200], "produced": None}
+        # deliberate guard (a `raise` statement of the package) or incidental failure deeper down (torch indexing etc.)?
+        import linecache
+        import traceback as _tb
+        fr = _tb.extract_tb(e.__traceback__)[-1]
+        line = (fr.line or linecache.getline(fr.filename, fr.lineno)).strip()
+        guard = ("/seqm/" in fr.filename) and line.startswith("raise")
+        return {"raised": type(e).__name__, "msg": str(e)[:200], "produced": None, "guard": bool(guard)}
 
 
 def probe_reject(inp: Dict[str, Any]) -> Dict[str, Any]:
@@ -64,8 +70,18 @@ def probe_reject(inp: Dict[str, Any]) -> Dict[str, Any]:
     else:
         ok = out["raised"] is None
         obs = "accepted" if ok else f"valid input rejected with {out['raised']}: {out.get('msg', '')}"
+    fields = {"precondition": inp["precondition"], "expect": inp["expect"], "raised": out["raised"], "guard": out.get("guard", False)}
+    if inp.get("kind") == "es" and len(inp.get("names", [])) == 1 and inp["names"][0] in esh.GEOMS:
+        # does the request fill a spin channel completely (no virtual orbital left)?  Boundary of the occupation range.
+        zs = esh.GEOMS[inp["names"][0]][0]
+        val = {1: 1, 3: 1, 4: 2, 5: 3, 6: 4, 7: 5, 8: 6, 9: 7, 11: 1, 12: 2, 13: 3, 14: 4, 15: 5, 16: 6, 17: 7}
+        nel = sum(val[z] for z in zs) - int(inp.get("charge", [esh.CHARGE.get(inp["names"][0], 0)])[0])
+        norb = sum(1 if z == 1 else 4 for z in zs)
+        mult = int(inp.get("mult", [1])[0]) if inp.get("uhf") else 1
+        na = (nel + mult - 1) // 2 if inp.get("uhf") else nel // 2
+        fields["full_shell"] = bool(na == norb)
     return {"ok": ok, "observed": [obs], "expected": inp["expect"], "predicate": "documented precondition violated => error before any result; valid => accepted",
-            "fields": {"precondition": inp["precondition"], "expect": inp["expect"], "raised": out["raised"]}}
+            "fields": fields}
 
 
 def probe_finite(inp: Dict[str, Any]) -> Dict[str, Any]:
@@ -234,7 +250,8 @@ def run(ctx: Ctx):
                 toks = _encode(c)
                 ans = drv.ask(*toks)
                 raised = r["fields"].get("raised")
-                want = "ok" if raised is None else raised
+                # the model is about the package's guards: an incidental failure behind them means "every guard accepted"
+                want = "ok" if (raised is None or not r["fields"].get("guard", True)) else raised
                 # incidental torch index errors surface as RuntimeError/IndexError: the model only knows deliberate guards
                 ok = len(ans) == 1 and ans[0] == want
                 ctx.corr_case("guards: accept/reject class", {"precondition": c["precondition"], "tokens": toks[1:]}, ans, want, ok, stratum=c["precondition"])
